@@ -23,11 +23,11 @@ func init() {
 		Assumptions: []string{
 			"'small scheduling margin' is taken as 1.5 s of fake time on top of the configured query timeout",
 			"shedding is attributed by count: the number of well-formed queries left unanswered must not exceed what the kernel queue and the engine's drop counters say was shed, the poisoned client's queries aside",
-			"only the UDP transport is simulated",
+			"the owned UDP and TCP listeners are simulated; for stream clients the count and order of replies are judged, latency only through the connection's own behaviour",
 		},
 		Components: kit.Components{
-			Real: []string{"server UDP listener/engine/batch I/O", "whole middleware chain, cache dedup, resolver, singleflight, per-query deadlines"},
-			Stub: []string{"kernel sockets/syscalls (simsock)", "upstream network (simnet) and authoritative servers (authsim)", "TCP, TLS, DoH, DoQ listeners"},
+			Real: []string{"server UDP listener/engine/batch I/O", "server TCP listener/engine/stream", "whole middleware chain, cache dedup, resolver, singleflight, per-query deadlines"},
+			Stub: []string{"kernel sockets/syscalls (simsock)", "upstream network (simnet) and authoritative servers (authsim)", "TLS, DoH, DoQ listeners"},
 		},
 		Gen:      func(r *kit.RNG, tier string) any { return genIng(r, "c11") },
 		Blank:    func() any { return &IngScenario{} },
@@ -70,6 +70,8 @@ func c11Check(x *ingRun, tr *kit.Trace, res *kit.Result) {
 		n := len(rec.Replies)
 		fam := "host"
 		switch {
+		case rec.Op.Name >= ingNameWild:
+			fam = "slow"
 		case rec.Op.Name >= ingNameBig:
 			fam = "big"
 		case rec.Op.Name >= ingNameNX:
@@ -121,6 +123,37 @@ func c11Check(x *ingRun, tr *kit.Trace, res *kit.Result) {
 			return
 		}
 	}
+	// stream clients: never more replies than queries; a query without a reply ends the
+	// connection's replies (serial serving: nothing after it can have been answered)
+	for ci, cr := range x.conns {
+		answerable := 0
+		for _, f := range cr.Frames {
+			if f.Written && f.Op.Kind != "response" {
+				answerable++
+			}
+		}
+		if len(cr.Replies) > answerable {
+			res.Fail("C11/two-replies", "connection %d: %d frames that can be answered were written, %d replies came back", ci, answerable, len(cr.Replies))
+			return
+		}
+		wellBehaved := cr.Conn.CloseAtMs == 0 && !cr.Conn.Reset && cr.Conn.Window == 0 && cr.Conn.ReadDelayMs == 0
+		if wellBehaved && len(cr.Frames) > 0 && cr.Frames[0].Written && cr.Frames[0].WellFormed && len(cr.Replies) == 0 {
+			res.Fail("C11/no-reply", "connection %d (client %d): the first query %s of a connection the client kept open and read from got no reply", ci, cr.Conn.Client, cr.Frames[0].QName)
+			return
+		}
+		if wellBehaved {
+			allGood := true
+			for _, f := range cr.Frames {
+				if !f.WellFormed || !f.Written || f.Op.Name >= ingNameSlow && f.Op.Name < ingNameNX {
+					allGood = false
+				}
+			}
+			if allGood && len(cr.Replies) != len(cr.Frames) {
+				res.Fail("C11/no-reply", "connection %d: %d well-formed queries for resolvable names on a connection the client kept open got %d replies", ci, len(cr.Frames), len(cr.Replies))
+				return
+			}
+		}
+	}
 	if x.sc.ClientRate > 0 {
 		// rate-limited queries are not admitted; this check does not generate a rate limit
 		unanswered = 0
@@ -128,6 +161,14 @@ func c11Check(x *ingRun, tr *kit.Trace, res *kit.Result) {
 	if unanswered > shed {
 		rec := firstUnanswered
 		res.Fail("C11/no-reply", "%d well-formed queries got no reply but only %d were shed (kernel drops %d, counters %s); first: op %d %s from client %d id %d at %v", unanswered, shed, x.g.K.KernelDrops, ingCounterStr(x.counters), rec.Idx, rec.QName, rec.Op.Client, rec.Op.ID, rec.SentAt)
+		return
+	}
+	if x.probeFail != "" && x.sc.ClientRate == 0 {
+		res.Fail("C11/stuck-after-load", "after the load stopped and every query timeout had passed, a fresh query for a healthy name failed: %s (probes: %v; counters %s)", x.probeFail, x.probes, ingCounterStr(x.counters))
+		return
+	}
+	if x.idleShed != "" && x.sc.ClientRate == 0 {
+		res.Fail("C11/idle-datagram-shed-after-overload", "%s", x.idleShed)
 		return
 	}
 	if x.shutErr != nil {
